@@ -10,7 +10,7 @@ func vxT(p string) Transform {
 	return New(vx.F32(p+"a"), vx.F32(p+"b"), vx.F32(p+"c"), vx.F32(p+"d"), vx.F32(p+"e"), vx.F32(p+"f"))
 }
 
-func vxEq(a, b fl) bool { return vx.ApproxEq(float64(a), float64(b)) }
+func vxEq(a, b fl) bool { return vx.RealEq(float64(a), float64(b)) }
 
 func vxSame(label string, x, y Transform) {
 	vx.Assert(label+".A", vxEq(x.A, y.A))
